@@ -102,7 +102,18 @@ RecursiveCases == {[items |-> (CASE e = "self" -> <<LinkType>> [] e = "mutual" -
                                \o << RecTriple[pm[1]], RecTriple[pm[2]], RecTriple[pm[3]] >>,
                     content |-> RecFocus.content, attrs |-> <<>>, order |-> "before"] : pm \in Perms3, e \in {"none", "self", "mutual"}}
 
+\* Slice "toplevel": the whole content of the type is a choice (no enclosing sequence), with its own occurrence;
+\* branches: builtin, named type, reference, a nested sequence; with and without attributes
+ChoiceO(min, max, ps) == [k |-> "choice", min |-> min, max |-> max, ps |-> ps]
+TopBranches == { << El("leftBranch", B("string"), 1, "1"), El("rightBranch", B("long"), 1, "1") >>,
+                 << El("leftBranch", T("t", "OtherType"), 1, "1"), Ref("t", "GlobalThing", 1, "1"), El("rightBranch", T("o", "FarType"), 0, "unb") >>,
+                 << El("leftBranch", B("int"), 1, "n"), SeqP(1, "1", << El("innerMember", B("string"), 1, "1"), El("tailMember", B("boolean"), 0, "1") >>) >> }
+TopLevelCases == {[content |-> << ChoiceO(mn, mx, br) >>, attrs |-> at, order |-> o] :
+                    mn \in Mins, mx \in Maxs, br \in TopBranches, o \in {"before", "after"},
+                    at \in {<<>>, << [k |-> "attr", n |-> "subjectAttr", ty |-> B("string"), use |-> "req"] >>}}
+
 Space == CASE Slice = "builtins" -> BuiltinCases
+           [] Slice = "toplevel" -> TopLevelCases
            [] Slice = "recursive" -> RecursiveCases
            [] Slice = "positions_all" -> PositionAllCases
            [] Slice = "triples" -> TripleCases
